@@ -21,6 +21,8 @@ FAMILIES = {
     "indexsweep": {"model": _STACK_MODEL, "spec": _STACK_SPEC},
     "nesting": {"model": _STACK_MODEL, "spec": _STACK_SPEC},
     "policy": {"model": _STACK_MODEL, "spec": _STACK_SPEC},
+    "transfer": {"model": {"imports": "Base StackImpl StackSpecCorr TransferCorr TransferCorrM", "type": "tcase", "fn": "tcheck_model"},
+                 "spec": {"imports": "Base StackSpec StackSpecCorr TransferCorr", "type": "tcase", "fn": "tcheck_spec"}},
 }
 
 PROPS = {
@@ -33,6 +35,9 @@ PROPS = {
     "C13": {"props_file": "Props/C13.v", "families": ["nesting"], "design_ref": "DESIGN.md §8 C13",
             "level_text": "Theorems c13_*: with the option on Push stores exactly the non-Stack values (in order, up to capacity); switching never touches elements; CanNest = option off = a pushed Stack would be stored; IsNesting = some element is a Stack/alias; in every reachable state.",
             "technique": "Coq proof over the regenerated list model + differential correspondence check (native/alias/pointer-to-alias values)"},
+    "C15": {"props_file": "Props/C15.v", "families": ["transfer"], "design_ref": "DESIGN.md §8 C15",
+            "level_text": "Theorems c15_*: for all source/destination contents, capacities, destination options and push policies, the model of Stack.Transfer (pre-check and success expression regenerated from /repo) agrees with the specification: true is returned only if the destination ends as its previous elements followed by every source element in order; too little free capacity, a read-only or non-convertible destination give false and no change; the source is not an output of the operation at all.",
+            "technique": "Coq refinement proof over two raw-slot states + exhaustive/random differential correspondence check"},
     "C14": {"props_file": "Props/C14.v", "families": ["policy"], "design_ref": "DESIGN.md §8 C14",
             "level_text": "Theorem c14_push_policy holds for EVERY policy function: consulted values are a prefix of the batch, each once, in order; approved ones are exactly what is appended; the first rejection stops the batch, is recorded in Err and is not stored; capacity respected.",
             "technique": "Coq proof parametric in the policy closure + differential correspondence check with logged table-driven policies"},
